@@ -47,9 +47,6 @@ func (e *Env) with(name string, v Val) *Env {
 
 func desugar(s string) string {
 	s = strings.TrimSpace(s)
-	if i := topLevelIndex(s, "==>"); i >= 0 {
-		return "__implies(" + desugar(s[:i]) + ", " + desugar(s[i+3:]) + ")"
-	}
 	for _, q := range []string{"forall", "exists"} {
 		if strings.HasPrefix(s, q+" ") {
 			j := topLevelIndex(s, "::")
@@ -60,6 +57,9 @@ func desugar(s string) string {
 			body := desugar(s[j+2:])
 			return fmt.Sprintf("__%s(func(%s int) bool { return %s })", q, vars, body)
 		}
+	}
+	if i := topLevelIndex(s, "==>"); i >= 0 {
+		return "__implies(" + desugar(s[:i]) + ", " + desugar(s[i+3:]) + ")"
 	}
 	// recurse into parenthesised groups
 	var b strings.Builder
@@ -80,6 +80,9 @@ func desugar(s string) string {
 			}
 			inner := s[i+1 : j]
 			parts := splitTopLevel(inner, ',')
+			if t := strings.TrimSpace(inner); strings.HasPrefix(t, "forall ") || strings.HasPrefix(t, "exists ") {
+				parts = []string{inner}
+			}
 			for k, p := range parts {
 				parts[k] = desugar(p)
 			}
@@ -723,6 +726,15 @@ func (e *Env) callExpr(ex *ast.CallExpr, hint types.Type) Val {
 				q = "exists"
 				inner = and(append(ranges, body.S)...)
 			}
+			if q == "forall" {
+				var bvs []string
+				for _, b := range binders {
+					bvs = append(bvs, strings.Fields(b[1:])[0])
+				}
+				if pat := selectPatterns(body.S, bvs); pat != "" {
+					inner = fmt.Sprintf("(! %s :pattern (%s))", inner, pat)
+				}
+			}
 			return Val{T: boolT, S: fmt.Sprintf("(%s (%s) %s)", q, strings.Join(binders, " "), inner)}
 		case "old":
 			n := *e
@@ -781,6 +793,32 @@ func (e *Env) callExpr(ex *ast.CallExpr, hint types.Type) Val {
 				r = sRef(a.S)
 			}
 			return Val{T: boolT, S: sx(">", r, c.alloc(e.old))}
+		}
+		// named predicate of the contract language
+		if pk := e.pkg(); pk != nil {
+			if d := e.x.p.defines[pk.Name()+"."+id.Name]; d != nil {
+				if len(ex.Args) != len(d.Params) {
+					e.fail("define %s: wrong number of arguments", d.Name)
+				}
+				body, err := d.Body.parse()
+				if err != nil {
+					panic(contractError{err.Error()})
+				}
+				n := *e
+				n.vars = map[string]Val{}
+				for i, a := range ex.Args {
+					n.vars[d.Params[i]] = e.eval(a, nil)
+				}
+				for k, v := range e.vars {
+					if strings.HasPrefix(k, "\x00q:") {
+						n.vars[k] = v
+					}
+				}
+				n.useCells = false
+				n.loop = nil
+				n.oldVars = nil
+				return n.eval(body, hint)
+			}
 		}
 		// conversion T(x)?
 		if _, obj := e.scopeLookup(id.Name); obj != nil {
@@ -923,4 +961,82 @@ func (e *Env) globalVar(obj *types.Var) Val {
 		return Val{T: obj.Type(), S: v.S}
 	}
 	return Val{T: obj.Type(), S: c.regionInit(name, e.st.gen)}
+}
+
+// selectPatterns chooses, for each bound variable, one array-read term
+// "(select A idx)" of the body whose index mentions that variable (and whose
+// array does not mention any bound variable) as E-matching trigger.
+func selectPatterns(body string, bvs []string) string {
+	var terms []string
+	collectSelects(body, &terms)
+	mentions := func(t, v string) bool {
+		for i := 0; i+len(v) <= len(t); i++ {
+			if t[i:i+len(v)] == v {
+				end := i + len(v)
+				if (i == 0 || t[i-1] == ' ' || t[i-1] == '(') && (end == len(t) || t[end] == ' ' || t[end] == ')') {
+					return true
+				}
+			}
+		}
+		return false
+	}
+	var chosen []string
+	covered := map[string]bool{}
+	for _, v := range bvs {
+		if covered[v] {
+			continue
+		}
+		found := ""
+		for _, t := range terms {
+			parts := splitSexp(t[len("(select ") : len(t)-1])
+			if len(parts) != 2 {
+				continue
+			}
+			arrOK := true
+			for _, w := range bvs {
+				if mentions(parts[0], w) {
+					arrOK = false
+				}
+			}
+			if !arrOK || strings.Contains(parts[0], "(ite ") || !mentions(parts[1], v) || strings.Contains(parts[1], "(ite ") || strings.Contains(parts[1], "(mod ") || strings.Contains(parts[1], "(div ") || strings.Contains(parts[1], "(* ") {
+				continue
+			}
+			found = t
+			break
+		}
+		if found == "" {
+			return ""
+		}
+		dup := false
+		for _, c := range chosen {
+			if c == found {
+				dup = true
+			}
+		}
+		if !dup {
+			chosen = append(chosen, found)
+		}
+		for _, w := range bvs {
+			if mentions(found, w) {
+				covered[w] = true
+			}
+		}
+	}
+	return strings.Join(chosen, " ")
+}
+
+func collectSelects(t string, out *[]string) {
+	if !strings.HasPrefix(t, "(") {
+		return
+	}
+	if strings.HasPrefix(t, "(select ") {
+		*out = append(*out, t)
+	}
+	// descend
+	inner := t[1 : len(t)-1]
+	for _, p := range splitSexp(inner) {
+		if strings.HasPrefix(p, "(") {
+			collectSelects(p, out)
+		}
+	}
 }
